@@ -41,7 +41,7 @@ const CLASSES: [&str; 22] = [
 ];
 
 pub fn run(ctx: &Ctx) -> Report {
-    let n = ctx.cases(4_000, 150_000);
+    let n = ctx.cases(10_000, 400_000);
     let local = run_cases(ctx, n, |case, l| one_case(ctx, case, l));
     let mut rep = Report::new(
         "exploration",
